@@ -333,4 +333,20 @@ def run(ctx: Ctx, tier: str) -> Result:
     from .common import borrow
     borrow(ctx, res, tier, "c11", ("C11.BUILD",), "C16.BUILD", "exactly one action carries the log message: the snapshot action, or the log action when collection is off")
     borrow(ctx, res, tier, "c10", ("C10.SCOPE", "C10.CONTAIN"), "C16.EVAL", "each field is evaluated in place, in the paused frame; a failing field yields its error text only")
+    # one message per permitted hit: the results of an event are processed once, when the trigger context closes after every
+    # action of the event has run - a context closed (and its result list processed) once per action emits the earlier
+    # actions' messages again for each later action
+    from .common import trace_worker
+    wk_, _roles_ = trace_worker(ctx)
+    TCQ = "deep.processor.context.trigger_context.TriggerContext"
+    withs_ = [w_ for w_ in t.nodes_in(wk_, ast.With) if any(ty[0] == "inst" and ty[1] == TCQ for it_ in w_.items for ty in t.type_of(it_.context_expr, wk_))]
+    if len(withs_) == 1 and not paths.enclosing_loops(p, withs_[0], wk_):
+        res.ok("C16.PIPE", {"the trigger context is closed once per event, after the loop over the actions": wk_.loc(withs_[0])})
+    elif withs_:
+        res.fail(Finding("C16.PIPE", wk_.qname, withs_[0], wk_.loc(withs_[0]), "the trigger context is entered / closed %s: its results (log messages, snapshots, callbacks) are processed "
+                         "more than once per event" % ("inside the loop over the actions" if paths.enclosing_loops(p, withs_[0], wk_) else "%d times" % len(withs_))))
+    else:
+        res.fail(Finding("C16.PIPE", wk_.qname, "<with trigger_context:>", wk_.loc(), "the trace callback never closes the trigger context: attached log results are not emitted"))
+    borrow(ctx, res, tier, "c13", ("C13.ARGS",), "C16.BUILD", "the text an installed log action emits is the one it was registered with: the action's configuration is the builder's own "
+           "mapping, not the dict the program passed (and may change or reuse afterwards)")
     return res
